@@ -73,7 +73,8 @@ func (g *generator) each(t typ, n int, assign bool, depth int, emit func(*node))
 			case 2:
 				for a := 0; a <= n-1; a++ {
 					for _, l := range g.list(sg.args[0], a, false) {
-						for _, r := range g.list(sg.args[1], n-1-a, false) {
+						// the last operand may be an assignment: a op $v = e  is  a op ($v = e)
+						for _, r := range g.list(sg.args[1], n-1-a, o.kind == kBinary || o.kind == kElvis) {
 							emit(&node{op: o, t: t, kids: []*node{l, r}})
 						}
 					}
@@ -83,7 +84,7 @@ func (g *generator) each(t typ, n int, assign bool, depth int, emit func(*node))
 					for b := 0; a+b <= n-1; b++ {
 						for _, x := range g.list(sg.args[0], a, false) {
 							for _, y := range g.list(sg.args[1], b, false) {
-								for _, z := range g.list(sg.args[2], n-1-a-b, false) {
+								for _, z := range g.list(sg.args[2], n-1-a-b, true) {
 									emit(&node{op: o, t: t, kids: []*node{x, y, z}})
 								}
 							}
